@@ -23,6 +23,7 @@ func main() {
 	}
 	log.SetOutput(io.Discard) // the library logs every recovered panic of resource code to the default logger
 	run := ev.Start("C08")
+	defer run.Guard()
 	run.Rule("case = (generated resource method, scripted outcome, mounting): outcomes = success (default and overridden status), typed nil without error, ErrorResponse with each of the 64 subsets of {status, message, code, serviceErrorCode, exceptionClass, docUrl}, plain error, panic(string), panic(error), nil-dereference panic; " +
 		"the tapped HTTP status / error header / body and the generated client's result are compared with the statement's table; the ErrorResponse object returned by resource code is deep-compared with a snapshot taken before the call; " +
 		"a child process under the race detector serves concurrent requests that all return one shared error object. distinct = distinct (method kind, outcome kind)")
